@@ -75,6 +75,7 @@ type histState struct {
 	tmpDir   string
 	curScriptBad map[string]bool
 	harnessErr   string
+	optPool      map[string]*lint.FilterOptions // filter options built by mkopts ops, by their plan form
 	hangDER      []byte // bytes and configuration text of the lint call in progress (for the hang report)
 	hangCfg      string
 	hasRegister  int // -1 unknown, 0 no, 1 the plan registers late probes
@@ -329,6 +330,18 @@ func (h *histState) step(i int, op *Op) {
 		h.doFresh(i, op)
 	case "register":
 		h.doRegister(i, op)
+	case "mkopts":
+		// build filter options now, use them later
+		if fo, err := op.Opts.real(); err == nil {
+			if h.optPool == nil {
+				h.optPool = map[string]*lint.FilterOptions{}
+			}
+			k := mustJSON(op.Opts)
+			if _, ok := h.optPool[k]; !ok {
+				h.optPool[k] = &fo
+			}
+			h.log.Add("op %d mkopts %s", i, op.Opts)
+		}
 	case "clock":
 		h.setClock(op.T)
 		h.ctr.inc("fault/clock_jump")
@@ -765,7 +778,16 @@ func (h *histState) doFilter(i int, op *Op) {
 	parent := h.regs[op.Reg]
 	pm := h.mregs[op.Reg]
 	v := modelFilter(h.meta, pm, op.Opts)
-	fo, err := op.Opts.real()
+	// options built earlier in the history (mkopts) are used as the objects they are: they may have
+	// been built side by side with other options from the same profiles, and they are used again
+	var fo lint.FilterOptions
+	var err error
+	if pooled, ok := h.optPool[mustJSON(op.Opts)]; ok {
+		fo = *pooled
+		h.ctr.inc("filter_with_prebuilt_options")
+	} else {
+		fo, err = op.Opts.real()
+	}
 	if err != nil {
 		h.log.Add("op %d filter: regexp in plan does not compile: %v", i, err)
 		h.aborted = true
